@@ -57,6 +57,9 @@ func HarnessDir() string {
 	if d := os.Getenv("VERIF_HARNESS"); d != "" {
 		return d
 	}
+	if d := os.Getenv("VERIF_DIR"); d != "" {
+		return d + "/harness"
+	}
 	return "/verif/harness"
 }
 
